@@ -170,10 +170,23 @@ type serveEntry struct {
 	Method, Pattern, Opt string
 }
 
+// serveViaCopy: when set, a middleware in front of every handler hands a CloneWith copy of the context down the chain
+// (routes and special handlers then work on a recycled copy).
+var serveViaCopy atomic.Bool
+
 func buildServeRouter(entries []serveEntry, order []int, noMethod, autoOptions bool, useGlobal string) (*fox.Router, error) {
 	opts := []fox.GlobalOption{
 		fox.WithNoRouteHandler(specialHandler("noroute", 404)),
 		fox.WithMiddlewareFor(fox.RedirectHandler, redirectProbe),
+	}
+	if serveViaCopy.Load() {
+		opts = append([]fox.GlobalOption{fox.WithMiddleware(func(next fox.HandlerFunc) fox.HandlerFunc {
+			return func(c fox.Context) {
+				cp := c.CloneWith(c.Writer(), c.Request())
+				defer cp.Close()
+				next(cp)
+			}
+		})}, opts...)
 	}
 	if noMethod {
 		opts = append(opts, fox.WithNoMethodHandler(specialHandler("nomethod", 405)))
